@@ -47,6 +47,54 @@ func genFMA(t *rapid.T, specials bool) C03Case {
 	inRange := func(v model.Val) bool {
 		return v.Form != model.Finite || v.Exp <= model.MaxExp && v.Exp >= model.MinExp
 	}
+	if h.Rare(t, "wordsum", 30) {
+		// three integers, each in one mantissa word, whose exact x*y + u lies at or next to 2^64, 2^63, 10^19 or
+		// 2*10^19 - places where a shortcut through machine integers wraps although no operand is special
+		target := new(big.Int)
+		switch rapid.IntRange(0, 4).Draw(t, "ws.t") {
+		case 0, 1:
+			target.Lsh(big.NewInt(1), 64)
+		case 2:
+			target.Lsh(big.NewInt(1), 63)
+		case 3:
+			target.SetString("10000000000000000000", 10)
+		default:
+			target.SetString("19999999999999999998", 10)
+		}
+		target.Add(target, big.NewInt(int64(rapid.IntRange(-3, 3).Draw(t, "ws.d"))))
+		if rapid.IntRange(0, 3).Draw(t, "ws.above") == 0 {
+			target.Add(target, new(big.Int).SetUint64(rapid.Uint64Range(0, 1<<60).Draw(t, "ws.more")))
+		}
+		yv := int64(rapid.SampledFrom([]int{1, 1, 2, 3, 5, 7, 10, 1000}).Draw(t, "ws.y"))
+		// x*y just below 10^19, or anywhere: u = target - x*y must be a positive one-word integer
+		limit := new(big.Int).Quo(new(big.Int).SetUint64(h.Base-1), big.NewInt(yv))
+		lowest := new(big.Int).Sub(target, new(big.Int).SetUint64(h.Base-1))
+		lowest.Quo(lowest, big.NewInt(yv))
+		lowest.Add(lowest, big.NewInt(1))
+		if lowest.Sign() < 0 {
+			lowest.SetInt64(1)
+		}
+		if lowest.Cmp(limit) > 0 {
+			lowest.Set(limit)
+		}
+		span := new(big.Int).Sub(limit, lowest)
+		xvI := new(big.Int).Add(lowest, new(big.Int).SetUint64(rapid.Uint64Range(0, span.Uint64()).Draw(t, "ws.x")))
+		uI := new(big.Int).Sub(target, new(big.Int).Mul(xvI, big.NewInt(yv)))
+		if uI.Sign() <= 0 || uI.Cmp(new(big.Int).SetUint64(h.Base)) >= 0 || xvI.Sign() <= 0 {
+			uI.SetUint64(9500000000000000000)
+			xvI.SetInt64(9000000000000000000)
+			yv = 1
+		}
+		neg := rapid.Bool().Draw(t, "ws.neg")
+		xv, yvv, uv := model.FromInt(xvI, 0), model.FromInt(big.NewInt(yv), 0), model.FromInt(uI, 0)
+		xv.Neg, uv.Neg = neg, neg
+		if rapid.Bool().Draw(t, "ws.flip") {
+			xv.Neg, yvv.Neg = !xv.Neg, true
+		}
+		c.X, c.Y, c.U = mk(xv, "ws.x"), mk(yvv, "ws.y"), mk(uv, "ws.u")
+		c.P = uint(rapid.SampledFrom([]int{1, 5, 19, 20, 21, 34, 38, 40}).Draw(t, "ws.p"))
+		return c
+	}
 	if h.Rare(t, "tinyproduct", 25) {
 		// u carries a rounding pattern at the receiver's precision (a power of ten, a tie, all nines ...) and the
 		// product of two long operands (1..45 words each) lies entirely below u's last digit, by 0..60 digits or far:
@@ -642,50 +690,62 @@ func TestC03Grid(t *testing.T) {
 // of u that overlaps the product. Oracle: the far digit only has to lie below everything else, so the reference
 // result is the model's for the same operands with the stray digit 300 places down instead of 2^20.
 func c03LongTailAddend(t *testing.T) int {
-	const far, near = 1<<20 + 2000, 300
+	const far1, far2, near = 1<<20 + 2000, 1<<24 + 300000, 300
 	n := 0
 	type shape struct {
-		x, y, head string // digits of x (0.x), y, and of u's head, aligned at 10^-57
+		x, y, head string // digits of x (0.x), y, and of u's head, aligned at 10^-57 ("": u is the far digit alone)
 		uneg       bool
+		fars       []int
 		about      string
 	}
 	shapes := []shape{
-		{strings.Repeat("3", 57), "3", "1", false, "0.(57 nines) + 10^-57 + tiny = 1 + tiny"},
-		{"1" + strings.Repeat("0", 55) + "1", "1", "1", true, "0.1(55 zeros)1 - 10^-57 - tiny = 0.1 - tiny"},
-		{strings.Repeat("9", 57), "1", "2", false, "0.(57 nines) + 2*10^-57 + tiny"},
+		{strings.Repeat("3", 57), "3", "1", false, []int{far1}, "0.(57 nines) + 10^-57 + tiny = 1 + tiny"},
+		{"1" + strings.Repeat("0", 55) + "1", "1", "1", true, []int{far1}, "0.1(55 zeros)1 - 10^-57 - tiny = 0.1 - tiny"},
+		{strings.Repeat("9", 57), "1", "2", false, []int{far1}, "0.(57 nines) + 2*10^-57 + tiny"},
+		// the product ends in an exact tie at the smaller precisions and the addend is nothing but a digit millions of
+		// places down, on either side: it alone decides the direction of the nearest modes
+		{"15", "1", "", true, []int{far1, far2}, "0.15 - tiny (a tie at one digit, a hair less)"},
+		{"25", "1", "", false, []int{far1, far2}, "0.25 + tiny (a tie at one digit, a hair more)"},
+		{"1" + strings.Repeat("0", 17) + "5", "1", "", true, []int{far1, far2}, "0.1(17 zeros)5 - tiny (a tie at 18 digits)"},
+		{strings.Repeat("9", 29) + "5", "1", "", false, []int{far2}, "0.(29 nines)5 + tiny (a tie at 29 digits that carries)"},
 	}
 	for _, sh := range shapes {
-		for _, neg := range []bool{false, true} {
-			mk := func(tail int) (x, y, u h.Spec) {
-				x = h.Spec{F: "f", D: sh.x, E: 0, P: 57, Neg: neg}
-				y = h.Spec{F: "f", D: sh.y, E: 1, P: 19}
-				ud := sh.head + strings.Repeat("0", tail) + "1"
-				u = h.Spec{F: "f", D: ud, E: -56, P: uint(len(ud)), Neg: sh.uneg != neg}
-				return
-			}
-			xs, ys, us := mk(far)
-			_, _, un := mk(near)
-			x, y, u := xs.Build(), ys.Build(), us.Build()
-			for _, p := range []uint{1, 19, 30, 56, 57, 58, 76} {
-				for md := model.Mode(0); md < 6; md++ {
-					want := model.Fma(xs.Val(), ys.Val(), un.Val(), uint64(p), md)
-					z := mkRecv(p, uint8(md))
-					z.FMA(x, y, u)
-					got := h.Read(z)
-					o := &h.Obs{}
-					o.Label("long-tail-addend")
-					o.NonTrivial()
-					enc := mustJSON(struct {
-						Shape string
-						Neg   bool
-						P     uint
-						M     model.Mode
-					}{sh.about, neg, p, md})
-					if got.Malformed != "" || !got.Val().Equal(want.V) || model.Acc(got.Acc) != want.Acc {
-						h.ReportGridFail(t, "C03", h.Failf("long-tail", "%s (tiny = 10^-%d, negated: %v) at precision %d %v: got %v (%v), want %v (%v)", sh.about, 57+far, neg, p, md, got.Val(), model.Acc(got.Acc), want.V, want.Acc), enc)
+		for _, far := range sh.fars {
+			for _, neg := range []bool{false, true} {
+				mk := func(tail int) (x, y, u h.Spec) {
+					x = h.Spec{F: "f", D: sh.x, E: 0, P: 57, Neg: neg}
+					y = h.Spec{F: "f", D: sh.y, E: 1, P: 19}
+					ud := sh.head + strings.Repeat("0", tail) + "1"
+					u = h.Spec{F: "f", D: ud, E: -56, P: uint(len(ud)), Neg: sh.uneg != neg}
+					if sh.head == "" {
+						u = h.Spec{F: "f", D: "1", E: int64(-56 - tail), P: 1, Neg: sh.uneg != neg}
 					}
-					h.RecordGrid("C03", o, json.RawMessage(enc))
-					n++
+					return
+				}
+				xs, ys, us := mk(far)
+				_, _, un := mk(near)
+				x, y, u := xs.Build(), ys.Build(), us.Build()
+				for _, p := range []uint{1, 18, 19, 29, 30, 56, 57, 58, 76} {
+					for md := model.Mode(0); md < 6; md++ {
+						want := model.Fma(xs.Val(), ys.Val(), un.Val(), uint64(p), md)
+						z := mkRecv(p, uint8(md))
+						z.FMA(x, y, u)
+						got := h.Read(z)
+						o := &h.Obs{}
+						o.Label("long-tail-addend")
+						o.NonTrivial()
+						enc := mustJSON(struct {
+							Shape string
+							Neg   bool
+							P     uint
+							M     model.Mode
+						}{sh.about, neg, p, md})
+						if got.Malformed != "" || !got.Val().Equal(want.V) || model.Acc(got.Acc) != want.Acc {
+							h.ReportGridFail(t, "C03", h.Failf("long-tail", "%s (tiny = 10^-%d, negated: %v) at precision %d %v: got %v (%v), want %v (%v)", sh.about, 57+far, neg, p, md, got.Val(), model.Acc(got.Acc), want.V, want.Acc), enc)
+						}
+						h.RecordGrid("C03", o, json.RawMessage(enc))
+						n++
+					}
 				}
 			}
 		}
